@@ -160,6 +160,9 @@ template<typename Alloc>
 bool splinetable<Alloc>::read_fits_core(fitsfile* fits, const std::string& filePath){
 	int error = 0;
 	
+	//The table is empty, but may hold auxiliary keys; those of the file replace them
+	release();
+	
 	//If reading fails part way, discard what has been read so far and leave
 	//the table empty, rather than partially constructed
 	struct read_guard{
